@@ -157,7 +157,7 @@ def run(ctx: core.Ctx) -> core.Report:
                 "IPv6 endpoints, UDP and TCP) x 3 servers at adversarially chosen instants incl. refresh instants in both orders; "
                 "finite TTL with refresh 300/1000/2000 ms and infinite TTL without; server view folded from the Subscribe / "
                 "StopSubscribe entries on the wire; every step compared with the Lean model")
-    stateful.run_scenarios(ctx, rep, make, oracle, ctx.n(80, 1500), "c14")
+    stateful.run_scenarios(ctx, rep, make, oracle, ctx.n(200, 3000), "c14")
     return rep
 
 
